@@ -64,6 +64,7 @@ type Sim struct {
 	script         func(s *Sim, h int64) []*TxSpec
 	contracts      [][]byte // deployed contract addresses (top-level deployments)
 	scriptEvidence [][]byte // evidence a script wants in the current block
+	scriptMiss     [][]byte // validators a script reports as not having signed the previous block
 }
 
 var e18 = new(big.Int).Exp(big.NewInt(10), big.NewInt(18), nil)
@@ -632,7 +633,13 @@ func (s *Sim) Step() error {
 		s.scriptEvidence = nil
 		for i := range b.Votes {
 			b.Votes[i].Signed = true
+			for _, m := range s.scriptMiss {
+				if string(m) == string(b.Votes[i].Addr) {
+					b.Votes[i].Signed = false
+				}
+			}
 		}
+		s.scriptMiss = nil
 		if len(cur) > 0 {
 			b.Proposer = cur[0].Addr
 		}
